@@ -1,4 +1,4 @@
 """C04 — no job is launched before everything it depends on has succeeded."""
-FUNCS = ["Scheduler.aio_start", "Scheduler.aio_submit", "Job.dependencychanged", "Dependency.check", "JobDependency.status"]
+FUNCS = ["Scheduler.aio_start", "Scheduler.aio_submit", "Job.dependencychanged", "Dependency.check", "JobDependency.status", "updatedependencies", "ConfigInformation.updatedependencies"]
 LEVEL = "proof"
 TRUSTED = []
